@@ -67,6 +67,10 @@ type SCase struct {
 	// the sync point (never above the peer). Above F the headers of the blocks F.. are never fetched, so the node can
 	// not finish: it must say so up front (NewBlockchain / Init fail) or complete the synchronisation all the same.
 	TrustedHigh int `json:"trusted_high,omitempty"`
+	// AltWitness: the genuine blocks of the blocks stage arrive with ANOTHER valid witness than the one of the headers
+	// fetched before (any M of N validator signatures make a witness, peers hold different ones): they have to be
+	// accepted all the same (chains with more than one validator only).
+	AltWitness bool `json:"alt_witness,omitempty"`
 }
 
 func genStep(t *rapid.T) Step {
@@ -161,6 +165,7 @@ func genSCase(t *rapid.T) SCase {
 	if rapid.IntRange(0, 5).Draw(t, "has_trusted_high") == 0 {
 		c.TrustedHigh = rapid.IntRange(1, 40).Draw(t, "trusted_high")
 	}
+	c.AltWitness = rapid.IntRange(0, 2).Draw(t, "alt_witness") == 0
 	return c
 }
 
@@ -1052,7 +1057,11 @@ func (d *driver) feedBlock(st Step) error {
 		stopFlusher = d.n.startFlusher()
 		d.o.Label("jump-raced-by-the-periodic-flush")
 	}
-	err := d.mod.AddBlock(d.src.blk(next))
+	genuine := d.src.blk(next)
+	if d.c.AltWitness && ck.AltBlockWitness(genuine) {
+		d.o.Label("genuine-block-with-another-valid-witness")
+	}
+	err := d.mod.AddBlock(genuine)
 	if stopFlusher != nil {
 		stopFlusher()
 	}
